@@ -97,8 +97,8 @@ type vC10Scenario struct {
 }
 
 func TestVerif_C10_lookupcap(t *testing.T) {
-	vh.Run(t, vh.Spec{Prop: "C10", Unit: "lookupcap", Quick: 500, Thorough: 25000, CostMs: 45,
-		Rule: "PRNG networks (N 6-150, K in {1,2,3,5,8,20}, alpha/beta as C01, knowledge full/kbucket) in which 20-90% of the peers lie on FIND_NODE / GET_VALUE / GET_PROVIDERS: closer lists of 300-4000 entries (strangers, known peers, one peer repeated), self only / self first, garbage entries (empty and junk ids, undecodable addresses, 40 x 1 KB address lists for known peers), other-key / keyless / valueless records, provider lists of 300-4000 entries incl. self and strangers; all replies pass marshal+unmarshal; one GetClosestPeers / FindPeer / GetValue / FindProvidersAsync per case in virtual time (10% with a deadline); oracle: the call returns within the virtual budget, no panic, every response event heard <= 2K, a returned value was sent under the requested key, addresses stored for a peer named with a 40 KB address list stay within 8 KiB; non-trivial = at least one response event came from a reply carrying more than 2K closer peers (the cap had something to cut); distinct by (shape, op, liar behaviours, response order)",
+	vh.Run(t, vh.Spec{Prop: "C10", Unit: "lookupcap", Quick: 800, Thorough: 30000, CostMs: 25,
+		Rule:    "PRNG networks (N 6-150, K in {1,2,3,5,8,20}, alpha/beta as C01, knowledge full/kbucket) in which 20-90% of the peers lie on FIND_NODE / GET_VALUE / GET_PROVIDERS: closer lists of 300-4000 entries (strangers, known peers, one peer repeated), self only / self first, garbage entries (empty and junk ids, undecodable addresses, 40 x 1 KB address lists for known peers), other-key / keyless / valueless records, provider lists of 300-4000 entries incl. self and strangers; all replies pass marshal+unmarshal; one GetClosestPeers / FindPeer / GetValue / FindProvidersAsync per case in virtual time (10% with a deadline); oracle: the call returns within the virtual budget, no panic, every response event heard <= 2K, a returned value was sent under the requested key, addresses stored for a peer named with a 40 KB address list stay within 8 KiB; non-trivial = at least one response event came from a reply carrying more than 2K closer peers (the cap had something to cut); distinct by (shape, op, liar behaviours, response order)",
 		Clauses: []string{"operation-returns", "heard-at-most-2k", "value-from-own-key-record", "peerstore-record-bounded", "result-shape"}},
 		func(c *vh.Case) {
 			r := c.R
